@@ -2,8 +2,8 @@
 # seedtest.sh <PID> <k> [extra check ids...]: confirm a seeded change (suite passes, demo fails with it / passes without),
 # run ./check PID (and extras) against it, undo it, and file it under /verif/seeded/<PID>-<k>/
 P=$1; k=$2; shift; shift
-src=/tmp/m$P/out/$k
-dst=/verif/seeded/$P-$k
+src=${SEEDSRC:-/tmp/m$P/out/$k}
+dst=/verif/seeded/$P-${SEEDNAME:-$k}
 [ -f $src/patch.diff ] || { echo "no patch $src"; exit 1; }
 cd /repo; git status --short | grep -q . && { echo "/repo not clean"; exit 1; }
 git apply --check $src/patch.diff || { echo "patch does not apply to /repo"; exit 1; }
